@@ -67,6 +67,15 @@ fn orientations() -> Vec<(bool, Option<f64>, u32, &'static str)> {
         v.push((r, Some(90.0), 1, "90"));
         v.push((r, Some(180.0), 2, "180"));
         v.push((r, Some(270.0), 3, "270"));
+        // the same rotations spelled with negative angles and with angles of a full turn and more
+        v.push((r, Some(-90.0), 3, "-90"));
+        v.push((r, Some(-180.0), 2, "-180"));
+        v.push((r, Some(-270.0), 1, "-270"));
+        v.push((r, Some(-360.0), 0, "-360"));
+        v.push((r, Some(360.0), 0, "360"));
+        v.push((r, Some(450.0), 1, "450"));
+        v.push((r, Some(-630.0), 1, "-630"));
+        v.push((r, Some(-0.0), 0, "-0"));
     }
     v
 }
@@ -370,8 +379,10 @@ impl C12 {
                 cx.stats.executions += 1;
                 cx.stats.transitions += 2;
                 let loc = rp(off);
+                // the same rotation is also spelled as the negative angle deg-360 (second offset) 
+                let angle = if off.0 == 0 { deg as f64 } else { deg as f64 - 360.0 };
                 let res = guard(|| {
-                    let t = Transform::from_instance(&loc, r, Some(deg as f64));
+                    let t = Transform::from_instance(&loc, r, Some(angle));
                     pts.iter().map(|p| ip(&rp(*p).transform(&t))).collect::<Vec<P>>()
                 });
                 match res {
@@ -558,7 +569,7 @@ impl Driver for C12 {
         let d = tier.pick(3, 4);
         Describe {
             rule: format!(
-                "single placements: reflect in {{f,t}} x angle in {{None,0,90,180,270}} x offsets {{0,1,-7,1000,-2^31,2^31-1}}^2 x every point of the 9x9 grid (-4..4)^2 plus the four i32 corners, judged three ways (from_instance == cascade(translate, cascade(rotate, reflect_vert)) == exact integer map); chains: every word of depth 1..={d} over the 8 orientations x 3 offsets per level, as cascaded Transforms on 6 probe points and through the real Layout::flatten on a nested layout holding a rectangle, an asymmetric L polygon and a path (shape-by-shape exact images; polygon orientation flips iff odd number of reflections); general angles: every integer degree 0..359 x reflect x 2 offsets x the grid and three large points, within 0.5+1e-5 of a double-precision reference with exact octant reduction; nested general angles: parent at every integer degree x reflect over a child in each of the 8 right-angle orientations and one general angle x 3 non-zero child offsets, as cascaded Transforms and through Layout::flatten, every point within half a unit of the exact real composition (rounded once). A state is one placement / chain word; non-trivial = not the identity orientation."
+                "single placements: reflect in {{f,t}} x angle in {{None,0,90,180,270,-90,-180,-270,-360,360,450,-630,-0}} x offsets {{0,1,-7,1000,-2^31,2^31-1}}^2 x every point of the 9x9 grid (-4..4)^2 plus the four i32 corners, judged three ways (from_instance == cascade(translate, cascade(rotate, reflect_vert)) == exact integer map); chains: every word of depth 1..={d} over the 8 orientations x 3 offsets per level, as cascaded Transforms on 6 probe points and through the real Layout::flatten on a nested layout holding a rectangle, an asymmetric L polygon and a path (shape-by-shape exact images; polygon orientation flips iff odd number of reflections); general angles: every integer degree 0..359 x reflect x 2 offsets x the grid and three large points, within 0.5+1e-5 of a double-precision reference with exact octant reduction; nested general angles: parent at every integer degree x reflect over a child in each of the 8 right-angle orientations and one general angle x 3 non-zero child offsets, as cascaded Transforms and through Layout::flatten, every point within half a unit of the exact real composition (rounded once). A state is one placement / chain word; non-trivial = not the identity orientation."
             ),
             assumptions: vec!["general angles: the half unit is the statement's tolerance; 1e-5 covers double-precision evaluation".into()],
             excluded: vec!["non-integer angles and magnification".into()],
@@ -652,7 +663,7 @@ impl Driver for C12 {
         json!({"case": key})
     }
     fn guards(&self, tier: Tier, stats: &Stats, _d: u64) -> Result<(), String> {
-        require_tags(stats, &["degrees2", "reflected", "plain", "none", "0", "90", "180", "270", "depth1", "depth2", "depth3"])?;
+        require_tags(stats, &["degrees2", "reflected", "plain", "none", "0", "90", "180", "270", "-90", "-270", "450", "-630", "depth1", "depth2", "depth3"])?;
         if tier.is_thorough() {
             require_tags(stats, &["depth4"])?;
         }
